@@ -228,8 +228,26 @@ class _NoLit:
 
 def rule_no_replacement(ctx, rid):
     """A carrier formal is reassigned only by the defaulting idiom, and the literal default equals the stage's
-    signature defaults - so "no option" and "explicit defaults" coincide."""
+    signature defaults - so "no option" and "explicit defaults" coincide.  Option dicts (also the nested pad tables)
+    are never modified in place: a key popped from the caller's dict is silently missing on the next call."""
     P = ctx.P
+    from ..effects import MutationAnalysis
+    ma = MutationAnalysis(P)
+    for q, fi in sorted(P.funcs.items()):
+        if fi.module.name != 'emd.sift' or fi.parent is not None:
+            continue
+        opts = [f for f in fi.all_formals() if f.endswith('_opts') or f.endswith('_args')]
+        if not opts:
+            continue
+        mp = ma.mutated_params(fi)
+        for f in opts:
+            c = 'option dict %s is not modified in place' % f
+            if f in mp:
+                mu = mp[f][0]
+                ctx.violation(rid, fi, c, 'the caller\'s %s is changed (%s): options supplied once are different or '
+                              'missing on the next call' % (f, mu.what), node=mu.node)
+            else:
+                ctx.passed(rid, fi, c)
     for q, fi in sorted(P.funcs.items()):
         if fi.module.name not in ('emd.sift', 'emd.utils', 'emd.spectra', 'emd.cycles'):
             continue
